@@ -197,13 +197,15 @@ def run_case(case, rec):
         in_np = lambda z: z
         out_np = lambda z, o: o
 
-    def call_u(u, z, params, scalar_t=False):
+    def call_u(u, z, params, scalar_t=False, int_x=False):
+        # int_x: the space coordinates are lattice points handed over as an integer array (the time stays a float)
+        JX = (lambda v: jnp.asarray(np.asarray(v).astype(np.int32))) if int_x else J
         if eqt == "ODE":
             t = J(z[0]) if scalar_t else J(z[:1])
             return guard.call(u, t, params)
         if eqt == "statio_PDE":
-            return guard.call(u, J(z), params)
-        return guard.call(u, J(z[:1]), J(z[1:]), params)
+            return guard.call(u, JX(z), params)
+        return guard.call(u, J(z[:1]), JX(z[1:]), params)
 
     # ============================================================================ PINN / shared
     if kind in ("pinn", "shared"):
@@ -223,14 +225,18 @@ def run_case(case, rec):
         model = eqx.combine(nn, ulist[0].static)
         layers = extract_layers(model.layers, names)
         params = Params(nn_params=nn, eq_params=eqj)
-        for ip in range(4):
+        for ip in range(5):
             z = rng.uniform(-1, 2, D)
+            lattice = ip == 4 and eqt != "ODE"
+            if lattice:
+                z[(1 if eqt == "nonstatio_PDE" else 0):] = rng.integers(-1, 3, dx)
+                rec.count("calls_on_integer_lattice_points")
             raw = forward_np(layers, in_np(z))
             raw = np.atleast_1d(raw.squeeze())
             full = np.atleast_1d(out_np(z, raw if n_out > 1 else raw.reshape(())))
             for j, u in enumerate(ulist):
                 exp = full if kind == "pinn" else np.atleast_1d(full[sl_np[j]])
-                got = np.asarray(call_u(u, z, params))
+                got = np.asarray(call_u(u, z, params, int_x=lattice))
                 rec.count("pinn_calls_compared")
                 if got.ndim != 1:
                     rec.violation("pinn/no-trailing-component-axis", "output has shape %s (no trailing component axis)"
@@ -255,7 +261,7 @@ def run_case(case, rec):
                     if got0.shape != got.shape or not close(got0, got, 1e-12, 1e-14):
                         rec.violation("pinn/scalar-vs-length-one-time", "u(t scalar) = %s but u(t (1,)) = %s" % (got0, got))
                 if not case["transforms"]:
-                    gotb = np.asarray(call_u(u, z, nn))
+                    gotb = np.asarray(call_u(u, z, nn, int_x=lattice))
                     rec.count("bare_params_calls")
                     if gotb.shape != got.shape or not close(gotb, got, 1e-12, 1e-14):
                         rec.violation("pinn/bare-params", "bare nn_params give %s, Params object gives %s" % (gotb, got))
@@ -354,14 +360,18 @@ def run_case(case, rec):
             off += s
         inner = eqx.combine(jax.tree_util.tree_unflatten(jax.tree_util.tree_structure(u.params), new_leaves), u.static)
         ilayers = extract_layers(inner.layers, names)
-        for ip in range(3):
+        for ip in range(4):
             z = rng.uniform(-1, 2, D)
+            lattice = ip == 3 and eqt != "ODE"
+            if lattice:
+                z[(1 if eqt == "nonstatio_PDE" else 0):] = rng.integers(-1, 3, dx)
+                rec.count("calls_on_integer_lattice_points")
             raw = np.atleast_1d(forward_np(ilayers, in_np(z)).squeeze())
             full = np.atleast_1d(out_np(z, raw if n_out > 1 else raw.reshape(())))
             for j, uj in enumerate(ulist[1:] if hshared is not None else []):
                 # the other shared-output wrappers: slices of the same hyper-generated inner network
                 expj = np.atleast_1d(full[hsl[j + 1]])
-                gotj = np.asarray(call_u(uj, z, params))
+                gotj = np.asarray(call_u(uj, z, params, int_x=lattice))
                 rec.count("hyper_calls_compared")
                 rec.count("shared_slice_form_%s" % slice_form(hsl[j + 1]))
                 if gotj.shape != expj.shape or not close(gotj, expj, 1e-9, 1e-11):
@@ -370,7 +380,7 @@ def run_case(case, rec):
             exp = full if hshared is None else np.atleast_1d(full[hsl[0]])
             if hshared is not None:
                 rec.count("shared_slice_form_%s" % slice_form(hsl[0]))
-            got = np.asarray(call_u(u, z, params))
+            got = np.asarray(call_u(u, z, params, int_x=lattice))
             rec.count("hyper_calls_compared")
             if np.max(np.abs(exp)) > 1e-12:
                 rec.nontrivial((kind, eqt, dx, tuple(hyperparams), tuple(case["widths"]), n_out, ip, case["seed"]))
